@@ -55,6 +55,7 @@ type sys struct {
 	h       [slots]klevdb.Log
 	mode    [slots]int  // 0 closed, 1 rw, 2 ro
 	blk     [slots]bool // opened through OpenBlocking (part of the state: another code path answers Publish and Close)
+	read    [slots]bool // the handle has been read through (segments loaded, pins taken and released): part of the state too
 	logsAt  [slots]string
 	problem []string
 }
@@ -294,6 +295,7 @@ func (s *sys) apply(letter string) {
 			s.mode[i] = 1
 			if ro {
 				s.mode[i] = 2
+				s.read[i] = true // the observation below reads through everything
 				s.logsAt[i] = logs
 				// a read-only handle answers like the model says (same files)
 				save := w.L
@@ -318,7 +320,7 @@ func (s *sys) apply(letter string) {
 		if err := s.h[i].Close(); err != nil {
 			s.failf("Close of slot %d failed: %v", i, err)
 		}
-		s.h[i], s.mode[i], s.blk[i] = nil, 0, false
+		s.h[i], s.mode[i], s.blk[i], s.read[i] = nil, 0, false, false
 	case "Read":
 		// read through the whole log, whatever it answers (reads of a damaged segment fail)
 		for off := int64(-2); off <= s.w.M.Next; off++ {
@@ -326,6 +328,7 @@ func (s *sys) apply(letter string) {
 			_, _ = s.h[i].Get(off)
 		}
 		_, _ = s.h[i].GetByKey(drv.Keys[0])
+		s.read[i] = true
 	case "Write":
 		// Publish/Delete through this handle: read-only handles must refuse
 		if s.mode[i] == 2 {
@@ -402,7 +405,7 @@ func (s *sys) probeLock(letter string) {
 }
 
 func (s *sys) key() string {
-	return fmt.Sprintf("%v|%v|%d|%s", s.mode, s.blk, s.w.M.Next, drv.DirDigest(s.w.Dir, true))
+	return fmt.Sprintf("%v|%v|%v|%d|%s", s.mode, s.blk, s.read, s.w.M.Next, drv.DirDigest(s.w.Dir, true))
 }
 
 type Result struct {
